@@ -998,6 +998,8 @@ Proof.
   - destruct (decode_op opc) eqn:Hdec;
       try (eapply (local_sound fr w ctr sg s _ opc); [| exact Hnth | exact Hdec | exact H2 | exact Hin | exact Hsat]; reflexivity).
     + exact (create_sound fr w ctr sg s opc Hnth Hdec H2 l Hin Hsat).
+    + (* CREATE2 is outside the modelled subset: the model's path is stuck, no claim *)
+      destruct Hin as [<-|[]]. exists O. exact I.
     + exact (call_sound fr w ctr sg s opc op Hnth Hdec H2 l Hin Hsat).
   - (* running off the end of the code: implicit STOP *)
     destruct Hin as [<-|[]]. exists 1%nat. cbn [exec]. unfold step. cbn [e_code inst_frame].
